@@ -87,7 +87,7 @@ TWork(w) ==
   /\ out' = [j \in 1 .. hdr.nout |-> out[j] \o w.out[j]]
   /\ otags' = [j \in 1 .. hdr.nout |-> otags[j] \o w.tags[j]]
   /\ outn' = [j \in 1 .. hdr.nout |-> outn[j] \o w.outn[j]]
-  /\ Chk((hdr.mode # "ref" /\ haveRef) =>
+  /\ Chk((hdr.mode # "ref" /\ haveRef /\ ~Flag(hdr, "partial")) =>
             \A j \in 1 .. hdr.nout : IsPrefix(out'[j], refOut[j]), "prefix")
   /\ spin' = IF w.verdict.kind = "again" /\ ~Moved(w) /\ ~envSince THEN spin + 1 ELSE 0
   /\ Chk(spin' <= MaxSpin, "spin")
@@ -96,6 +96,8 @@ TWork(w) ==
   \* now means the block had named the wrong stream.
   /\ Chk((cprobe /\ lastW # NoW) => ~Moved(w), "misdirected")
   /\ Chk(Flag(hdr, "sync") => SyncLaw(w), "synclaw")
+  \* C16: an infinite source never reports EOF
+  /\ Chk(Flag(hdr, "infinite") => w.verdict.kind # "eof", "eof_infinite")
   \* C19: generated eof() <=> every input has ended and is drained
   /\ Chk((Flag(hdr, "sync") /\ hdr.nin > 0) =>
             (w.eof = \A i \in 1 .. hdr.nin : closedIn[i] /\ w.avail[i] - w.consumed[i] = 0), "eof")
@@ -147,7 +149,7 @@ Expected ==
     [] f.kind = "tee" -> TeeFn(p, ins)
     [] f.kind = "resample" -> Resample(p, ins)
     [] f.kind = "rtlsdr" -> RtlSdr(p, ins)
-    [] f.kind = "vecsource" -> VecSource([data |-> hdr.srcdata, repeat |-> p.repeat], ins)
+    [] f.kind \in {"vecsource", "vecsource_notags"} -> VecSource([data |-> hdr.srcdata, repeat |-> p.repeat], ins)
     [] f.kind = "v2s" -> V2S(p, ins)
     [] f.kind = "burst" -> BurstOut(p, ins)
     [] f.kind = "totext" -> ToTextFn(p, ins)
@@ -172,15 +174,16 @@ FnOutOk ==
   ELSE LET ex == Expected IN
        /\ Len(ex) = hdr.nout
        /\ \A j \in 1 .. hdr.nout :
-            /\ Len(outn[j]) = Len(ex[j])
-            /\ \A k \in 1 .. Len(ex[j]) : ex[j][k] = NoNum \/ outn[j][k] = ex[j][k]
+            /\ IF Flag(hdr, "partial") THEN Len(outn[j]) <= Len(ex[j]) ELSE Len(outn[j]) = Len(ex[j])
+            /\ \A k \in 1 .. Len(outn[j]) : k <= Len(ex[j]) /\ (ex[j][k] = NoNum \/ outn[j][k] = ex[j][k])
 FnTagsOk ==
   IF hdr.fn.kind \in {"corrtag", "burst"}
   THEN TagPairs(1, ExpectedTags.key) = ExpectedTags.set
        /\ Cardinality(ExpectedTags.set) = Cardinality({i \in 1 .. Len(otags[1]) : otags[1][i][2] = ExpectedTags.key})
   ELSE IF hdr.fn.kind \in {"vecsource", "v2s"}
-  THEN {<<otags[1][i][1], otags[1][i][2], otags[1][i][3]>> : i \in 1 .. Len(otags[1])} = ExpectedTriples
-       /\ Len(otags[1]) = Cardinality(ExpectedTriples)
+  THEN LET got == {<<otags[1][i][1], otags[1][i][2], otags[1][i][3]>> : i \in 1 .. Len(otags[1])}
+            want == IF Flag(hdr, "partial") THEN {t \in ExpectedTriples : t[1] < Len(outn[1])} ELSE ExpectedTriples
+       IN got = want /\ Len(otags[1]) = Cardinality(want)
   ELSE TRUE
 
 Final(e) ==
@@ -188,6 +191,8 @@ Final(e) ==
   /\ Chk(e.settled = TRUE, "unsettled")
   /\ Chk(TagMapOk, "tagmap")
   /\ Chk(FnOutOk, "fn_out")
+  \* C16: a finite source ends with EOF, once everything is out
+  /\ Chk(Flag(hdr, "finite_source") => (lastW # NoW /\ lastW.verdict.kind = "eof"), "eof_missing")
   /\ Chk(FnTagsOk, "fn_tags")
   /\ Chk(Flag(hdr, "close") =>
             /\ lastW # NoW
@@ -196,8 +201,8 @@ Final(e) ==
                   /\ closedIn[lastW.verdict.idx], "close_verdict")
   /\ IF hdr.mode = "ref"
      THEN refOut' = out /\ refTags' = otags /\ haveRef' = TRUE
-     ELSE /\ Chk(haveRef => out = refOut, "final_out")
-          /\ Chk(haveRef => \A j \in 1 .. hdr.nout : SameBag(otags[j], refTags[j]), "tags_ref")
+     ELSE /\ Chk((haveRef /\ ~Flag(hdr, "partial")) => out = refOut, "final_out")
+          /\ Chk((haveRef /\ ~Flag(hdr, "partial")) => \A j \in 1 .. hdr.nout : SameBag(otags[j], refTags[j]), "tags_ref")
           /\ UNCHANGED <<refOut, refTags, haveRef>>
   /\ UNCHANGED <<hdr, out, otags, outn, fed, closedIn, spin, envSince, lastW, probe, cprobe>>
 
